@@ -266,6 +266,11 @@ struct Runner {
     dir: PathBuf,
     series: Option<ByteSeries>,
     p: usize,
+    /// `gaps=g` on new/open: every cache level is configured TWICE, with max_gap None and Some(g).  The
+    /// library stores max_gap in the file name only, so the twin must hold the same lines; `files` checks that
+    /// (the None level is what the model and the specification speak about) and reports a twin that is
+    /// missing or differs as an extra role `cgapdiff<B>`
+    gaps: Option<(u64, Vec<usize>)>,
 }
 
 const NAME: &str = "s";
@@ -333,9 +338,38 @@ impl Runner {
         if let Ok(rd) = fs::read_dir(&self.dir) {
             for e in rd.flatten() {
                 let name = e.file_name().to_string_lossy().to_string();
+                if self.gaps.is_some() && name.starts_with(&format!("{NAME}_Some(")) {
+                    continue; // the twins are judged below, against their None level
+                }
                 let role = self.role_of(&name);
                 let bytes = fs::read(e.path()).unwrap_or_default();
                 v.push((role, format!("{}:{:016x}", bytes.len(), fnv(&bytes))));
+            }
+        }
+        if let Some((g, sizes)) = &self.gaps {
+            for b in sizes {
+                for (ext, strip) in [("byteseries", true), ("byteseries_index", false)] {
+                    let twin = fs::read(self.dir.join(format!("{NAME}_Some({g})_{b}.{ext}")));
+                    let base = fs::read(self.dir.join(format!("{NAME}_None_{b}.{ext}")));
+                    let same = match (&twin, &base) {
+                        (Ok(t), Ok(n)) => {
+                            if strip {
+                                Self::region(t) == Self::region(n)
+                            } else {
+                                t == n
+                            }
+                        }
+                        (Err(_), Err(_)) => true,
+                        _ => false,
+                    };
+                    if !same {
+                        let what = match &twin {
+                            Ok(t) => format!("{}:{:016x}", t.len(), fnv(t)),
+                            Err(_) => "absent".to_string(),
+                        };
+                        v.push((format!("cgapdiff{b}.{ext}"), what));
+                    }
+                }
             }
         }
         v.sort();
@@ -346,22 +380,53 @@ impl Runner {
         s
     }
 
-    fn configs(spec: &str) -> Vec<Config> {
+    fn configs(spec: &str, gap: Option<u64>) -> Vec<Config> {
         if spec == "-" || spec.is_empty() {
             return Vec::new();
         }
-        spec.split(',')
-            .filter_map(|b| b.parse::<usize>().ok())
-            .map(|b| Config {
+        let mut out = Vec::new();
+        for b in spec.split(',').filter_map(|b| b.parse::<usize>().ok()) {
+            out.push(Config {
                 max_gap: None,
                 bucket_size: b,
-            })
-            .collect()
+            });
+            if let Some(g) = gap {
+                out.push(Config {
+                    max_gap: Some(g),
+                    bucket_size: b,
+                });
+            }
+        }
+        out
+    }
+
+    fn gap_of(a: &BTreeMap<String, String>) -> Option<u64> {
+        a.get("gaps").and_then(|g| g.parse::<u64>().ok())
+    }
+
+    fn note_gaps(&mut self, a: &BTreeMap<String, String>) {
+        let sizes: Vec<usize> = a
+            .get("caches")
+            .map_or("-", |s| s.as_str())
+            .split(',')
+            .filter_map(|b| b.parse::<usize>().ok())
+            .collect();
+        self.gaps = Self::gap_of(a).map(|g| (g, sizes));
+    }
+
+    /// the data region of a file with the documented outer header (u16 length, two line ends, header)
+    fn region(bytes: &[u8]) -> &[u8] {
+        if bytes.len() < 4 {
+            return bytes;
+        }
+        let n = u16::from_le_bytes([bytes[0], bytes[1]]) as usize;
+        bytes.get(4 + n..).unwrap_or(&[])
     }
 
     fn op_new(&mut self, a: &BTreeMap<String, String>) -> String {
         let p: usize = a["p"].parse().unwrap();
-        let caches = Self::configs(a.get("caches").map_or("-", |s| s.as_str()));
+        let caches = Self::configs(a.get("caches").map_or("-", |s| s.as_str()), Self::gap_of(a));
+        self.note_gaps(a);
         // `name=`: what the user calls the series; a name with a dot ("s.v2") is stored under its stem
         let user_name = a.get("name").map_or(NAME, |s| s.as_str());
         let path = self.dir.join(user_name);
@@ -403,6 +468,8 @@ impl Runner {
 
     fn op_open(&mut self, a: &BTreeMap<String, String>) -> String {
         let caches_spec = a.get("caches").map_or("-", |s| s.as_str()).to_string();
+        let gap = Self::gap_of(a);
+        self.note_gaps(a);
         let ext = a.get("ext").map_or("0", |s| s.as_str()) == "1";
         let user_name = a.get("name").map_or(NAME, |s| s.as_str());
         let path = if ext {
@@ -425,7 +492,7 @@ impl Runner {
                 }
             }};
             ($b:expr, $p:expr, $r:expr) => {{
-                let mut b = $b.with_downsampled_cache($r, Self::configs(&caches_spec)).with_any_header();
+                let mut b = $b.with_downsampled_cache($r, Self::configs(&caches_spec, gap)).with_any_header();
                 for h in hdr.split('>') {
                     b = match h {
                         "any" => b.with_any_header(),
@@ -782,6 +849,7 @@ fn main() {
         dir,
         series: None,
         p: 0,
+        gaps: None,
     };
     let audit = std::env::var("BSRUN_AUDIT").is_ok();
     let stdin = std::io::stdin();
